@@ -18,6 +18,7 @@ TRUSTED = ["modelled, not verified: strtoll(…,10)+errno of the C library; Stri
            "direct oracle = python big-integer reading of RFC 7233 byte-range-set (elements split at ',', SP/HTAB around elements "
            "and empty elements tolerated as RFC 7230 section 7 asks of recipients)"]
 ASSUMPTIONS = ["header values are C strings without NUL, CR, LF (as delivered by the header parser)",
+               "item-level cases (op p) use non-empty, right-trimmed items, as strListGetItem produces them",
                "0 <= clen <= INT64_MAX (Http::Stream::buildRangeHeader refuses content_length < 0 before calling canonize)"]
 MANIFEST = {
     "text": "partial: canon_sound_complete (every parse-reachable spec list, every 0<=clen: canonize raises no overflow/assert, each "
@@ -52,7 +53,8 @@ def build_exe(stage):
 
 
 def build(stage):
-    return ProcHarness([build_exe(stage)])
+    # no symbolised stack for UBSan stops (the summary line names file:line): a stop then costs milliseconds, not a second
+    return ProcHarness([build_exe(stage)], env={"UBSAN_OPTIONS": "print_stacktrace=0:halt_on_error=1:exitcode=86"})
 
 
 # ---------------------------------------------------------------------------------------------- generators
@@ -181,6 +183,9 @@ def small_lists(hi, maxlen):
 
 
 def cases(rng, tier):
+    """Order matters: the framework examines the first 40 failing cases only, and headers with leniently read specs (known
+    findings) fail by the hundred. So everything whose failure would be new (exhaustive scopes, valid specs, numerals) comes first,
+    the mutation streams last."""
     thorough = tier == "thorough"
     hi, maxc = (4, 5) if thorough else (2, 3)
     for specs in small_lists(hi, 2):
@@ -191,17 +196,11 @@ def cases(rng, tier):
         else:
             yield mk(v, rng.range(0, maxc))
             yield mk(v, rng.range(0, maxc))
-    for v in BOUNDARY_HEADERS:
-        for clen in (0, 1, 2, 10):
-            yield mk(v, clen)
     for n in BOUNDARY_NUMS:
         for v in (b"bytes=" + n + b"-", b"bytes=-" + n, b"bytes=0-" + n, b"bytes=" + n + b"-" + n, b"bytes=5-6," + n + b"-"):
             for clen in (0, 10, I64MAX - 1, I64MAX):
                 yield mk(v, clen)
-    # truncation of a few headers at every offset
-    for v in [b"bytes=0-3, 1-, -2", b"BYTES=10-20,30-,-5", b"bytes=9223372036854775806-9223372036854775806"]:
-        for k in range(len(v) + 1):
-            yield mk(v[:k], 25)
+    later = []
     n = 16000 if thorough else 2500
     ub_left = 3
     for i in range(n):
@@ -224,14 +223,22 @@ def cases(rng, tier):
             v2 = mutate(rng, v)
             if rng.chance(1, 4):
                 v2 = mutate(rng, v2)
-            yield mk(v2, clen)
+            later.append(mk(v2, clen))
         else:           # item-level call with a tail
             item = spec_text(rng.choice(specs))
             if rng.chance(1, 2):
                 item = mutate(rng, item)
             tail = rng.choice([b"", b"", b",5-6", b" ,5-6", b",", b" ", b" 7", b"\t", b",-3", b"-3"])
-            item = item.replace(b"\0", b"0")
-            yield "p %s %s" % (hx(item), hx(tail))
+            item = item.replace(b"\0", b"0").rstrip(CWS) or b"-"     # strListGetItem hands over right-trimmed, non-empty items
+            later.append("p %s %s" % (hx(item), hx(tail)))
+    for v in BOUNDARY_HEADERS:
+        for clen in ((0, 1, 2, 10) if thorough else (2, 10)):
+            yield mk(v, clen)
+    # truncation of a few headers at every offset
+    for v in [b"bytes=0-3, 1-, -2", b"BYTES=10-20,30-,-5", b"bytes=9223372036854775806-9223372036854775806"]:
+        for k in range(len(v) + 1):
+            yield mk(v[:k], 25)
+    yield from later
 
 
 # ---------------------------------------------------------------------------------------------- direct oracle
@@ -340,6 +347,8 @@ def oracle(line, impl):
         return None
     if op == "p":
         item = unhx(a)
+        if not item or item != item.rstrip(CWS):
+            return None        # outside the contract of parseInit's only caller: items are non-empty and right-trimmed
         s = strict_spec(item)
         if s is None:
             return None if impl == "invalid" else INVALID_NOT_IGNORED + " (item level)"
@@ -350,7 +359,13 @@ def oracle(line, impl):
             return "unparsable output"
         off, ln = int(m.group(1)), int(m.group(2))
         want = {"range": lambda: (s[1], s[2] + 1 - s[1]), "from": lambda: (s[1], -1), "suffix": lambda: (-1, s[1])}[s[0]]()
-        return None if (off, ln) == want else "spec parsed to %d:%d, expected %d:%d" % ((off, ln) + want)
+        if (off, ln) == want:
+            return None
+        # no representation has a byte at position INT64_MAX (lengths are int64): a spec stored with last-byte-pos INT64_MAX-1
+        # instead of INT64_MAX selects the same bytes from every representation
+        if s[0] == "range" and s[2] == I64MAX and (off, ln) == (s[1], s[2] - s[1]):
+            return None
+        return "spec parsed to %d:%d, expected %d:%d" % ((off, ln) + want)
     return "unknown op"
 
 
@@ -393,13 +408,16 @@ LAX_SUFFIX = re.compile(rb"-[ \t\n\x0b\x0c\r]*[+-]?\d+", re.S)
 LAX_RANGE = re.compile(rb"[ \t\n\x0b\x0c\r]*\+?\d+[^-]*-(?:[ \t\n\x0b\x0c\r]*[+-]?\d+.*)?\Z", re.S)
 
 
+LAX_NEGZERO = re.compile(rb"[ \t\n\x0b\x0c\r]+-0+(?:[^0-9].*)?\Z", re.S)    # white space, then "-0" read as first-byte-pos 0
+
+
 def lax_item(item):
-    """a spelling that is a spec once strtoll's leniency (leading C white space, '+', ignored trailing text) is granted"""
+    """a spelling that is a spec once strtoll's leniency (leading C white space, sign, ignored trailing text) is granted"""
     if len(item) < 2:
         return False
     if item[:1] == b"-":
         return LAX_SUFFIX.match(item) is not None
-    return LAX_RANGE.match(item) is not None
+    return LAX_RANGE.match(item) is not None or LAX_NEGZERO.match(item) is not None
 
 
 def classify(line, impl, why):
@@ -420,7 +438,8 @@ def classify(line, impl, why):
             # either some item is lax, or only the list layer is (VT/FF treated as list white space, blank item ends the list)
             if any(strict_spec(i) is None for i in items):
                 return "C28-lax-spec"
-            return "C28-list-whitespace"
+            if b"\x0b" in first or b"\x0c" in first:
+                return "C28-list-whitespace"
     return None
 
 
